@@ -202,6 +202,21 @@ class CFG:
         return n
 
     def _stmt(self, s, frontier):
+        # `x = a if c else b` / `return a if c else b` are the if statement
+        # `if c: x = a else: x = b`: lowered so that every path rule sees the
+        # two forms alike. The synthetic statements remember their origin.
+        if LOWER_IFEXP and isinstance(s, (ast.Assign, ast.AugAssign, ast.Return)) \
+                and isinstance(getattr(s, 'value', None), ast.IfExp):
+            import copy
+            arms = []
+            for v in (s.value.body, s.value.orelse):
+                c = copy.copy(s)
+                c.value = v
+                c._origin = s
+                arms.append(c)
+            syn = ast.If(test=s.value.test, body=[arms[0]], orelse=[arms[1]])
+            ast.copy_location(syn, s)
+            return self._stmt(syn, frontier)
         if isinstance(s, ast.If):
             t, f = self._cond(s.test, frontier)
             out = self._block(s.body, t)
@@ -593,6 +608,9 @@ def _assigned_names(node):
             if isinstance(x, ast.Name):
                 out.add(x.id)
     return out
+
+
+LOWER_IFEXP = True
 
 
 def find_path_sensitive(cfg, starts, goal_pred, avoid=(), assume=None,
